@@ -578,23 +578,18 @@ class dir_archive(archive):
                 memo = None
                 raise KeyError(key)
                #raise OSError("error reading directory for '%s'" % key)
-        else:
-            import tempfile
-            base = os.path.basename(_dir) #XXX: PREFIX+key
-            root = os.path.realpath(self.__state__['id'])
-            name = tempfile.mktemp(prefix="_____", dir="").replace("-","_")
-            _arg = ".__args__" if input else ""
-            string = "from %s%s import memo as %s; sys.modules.pop('%s')" % (base, _arg, name, base)
+        else: # read the stored source (an import would go stale or miss)
+            _file = self._args if input else self._file
+            _file = os.path.join(_dir, _file)
             try:
-                sys.path.insert(0, root)
-                exec(string, globals()) #FIXME: unsafe, potential name conflict
-                memo = globals().get(name)# None) #XXX: error if not found?
-                globals().pop(name, None)
+                with open(_file, 'rb') as f:
+                    code = compile(f.read(), _file, 'exec')
+                memo = {}
+                exec(code, memo) #FIXME: unsafe
+                memo = memo['memo']
             except: #XXX: should only catch the appropriate exceptions
                 raise KeyError(key)
                #raise OSError("error reading directory for '%s'" % key)
-            finally:
-                sys.path.remove(root)
         return memo
     def _store(self, key, value, input=False):
         "store output (and possibly input) in a subdirectory"
@@ -727,25 +722,16 @@ class file_archive(archive):
             except:
                 memo = {}
                #raise OSError("error reading file archive %s" % filename)
-        else:
-            import tempfile
-            file = os.path.basename(filename)
-            root = os.path.realpath(filename).rstrip(file)[:-1]
-            curdir = os.path.realpath(os.curdir)
-            if file.endswith(('.py','.pyc','.pyo','.pyd')):
-                file = file.rsplit('.',1)[0]
-            name = tempfile.mktemp(prefix="_____", dir="").replace("-","_")
-            os.chdir(root)
-            string = "from %s import memo as %s; sys.modules.pop('%s')" % (file, name, file)
+        else: # read the stored source (an import would go stale or miss)
             try:
-                exec(string, globals()) #FIXME: unsafe, potential name conflict
-                memo = globals().get(name, {}) #XXX: error if not found ?
-                globals().pop(name, None)
+                with open(filename, 'rb') as f:
+                    code = compile(f.read(), filename, 'exec')
+                memo = {}
+                exec(code, memo) #FIXME: unsafe
+                memo = memo.get('memo', {}) #XXX: error if not found ?
             except: #XXX: should only catch appropriate exceptions
                 memo = {}
                #raise OSError("error reading file archive %s" % filename)
-            finally:
-                os.chdir(curdir)
         return memo
     def __save__(self, memo=None):
         """create an archive from the given dictionary"""
